@@ -108,6 +108,13 @@ func (o *Oracle) onBooted(inc *Inc) {
 	if got := r.LastIndex(); got != wantLast {
 		w.violate("C10", "C10/last-index-not-restored", "%s: LastIndex()=%d after restart, durable log ends at %d and newest snapshot at %d", inc.tag, got, im.lastLog, im.snapIdx)
 	}
+	// the snapshot raft positions itself at is the one its FSM was actually rebuilt from: after a
+	// fall-back to an older snapshot, not the newest one listed
+	if inc.fsm != nil && inc.fsm.restored {
+		if si, _ := r.VerifLastSnapshot(); si != inc.fsm.restoreIdx {
+			w.violate("C10", "C10/positioned-at-other-snapshot-than-restored", "%s: after start-up the last snapshot index is %d but its FSM was restored from the snapshot at %d", inc.tag, si, inc.fsm.restoreIdx)
+		}
+	}
 	_, _, latest, latestIdx := r.VerifConfigurations()
 	if !im.holes && (latestIdx != im.cfgIdx || idsOf(latest) != idsOf(im.cfg)) {
 		v := w.violate("C10", "C10/configuration-not-restored", "%s: latest configuration after restart is %d {%s}, durable state holds %d {%s}",
